@@ -130,18 +130,19 @@ Proof.
   intros H. injection H as <- <- <-. exists r. repeat split; assumption.
 Qed.
 
-(* where the model returns: the stated domain, lag < N, and at least P (P <= 4) / more than P (P > 4) lags *)
-Theorem arma_returns_thm (x : list F) P Q lag :
-  (0 < Q <= lag)%nat -> (lag + 2 * P <= length x + Q)%nat -> (2 * Q + P < length x)%nat -> (lag < length x)%nat ->
-  (P <= lag)%nat -> (4 < P -> P < lag)%nat ->
+(* where the model returns (the converse is arma_domain_thm below) *)
+Theorem arma_returns_gen_thm (x : list F) P Q lag :
+  (lag < length x)%nat -> (0 < Q)%nat -> (2 * Q + P < length x)%nat ->
+  (lag + P <= Q \/ (P <= lag + Q + 1 /\ lag + 2 * P <= length x + Q))%nat ->
+  (0 < lag)%nat -> (P <= lag)%nat -> (4 < P -> P < lag)%nat ->
   exists a b rho, arma_estimate lsm lsq x P Q lag = inr (a, b, rho).
 Proof.
-  intros HQ Hdom HQ2 Hlag HP HP4. unfold arma_estimate.
+  intros Hlag HQ HQ2 Hidx Hl0 HP HP4. unfold arma_estimate.
   destruct (acorr x lag Unbiased) as [r|] eqn:Er.
   2:{ unfold acorr in Er. apply correlation_raises_thm in Er. rewrite Nat.max_id in Er. lia. }
   destruct (Nat.ltb_spec (length x) P); [lia|].
   replace ((0 <? lag + P - Q)%nat && ((lag + Q + 1 <? P)%nat || (length x - P <? lag + P - Q)%nat)) with false.
-  2:{ symmetry. apply Bool.andb_false_iff. right. apply Bool.orb_false_iff.
+  2:{ symmetry. destruct (Nat.ltb_spec 0 (lag + P - Q)); [|reflexivity]. cbn [andb]. apply Bool.orb_false_iff.
       split; [destruct (Nat.ltb_spec (lag + Q + 1) P)|destruct (Nat.ltb_spec (length x - P) (lag + P - Q))]; try reflexivity; lia. }
   assert (Ha : exists a, arma_ar lsm lsq (length x) (arma_y r P Q lag) P lag = inr a).
   { unfold arma_ar. destruct (Nat.leb_spec P 4).
@@ -151,6 +152,46 @@ Proof.
   destruct (ma_returns_thm (arma_resid x a P) Q (2 * Q)) as (b & rho & Em); [lia| |].
   { unfold arma_resid. rewrite mk_length. lia. }
   rewrite Em. eauto.
+Qed.
+(* in particular on the stated domain, provided lag < N and there are at least P (more than P when P > 4) lags *)
+Theorem arma_returns_thm (x : list F) P Q lag :
+  (0 < Q <= lag)%nat -> (lag + 2 * P <= length x + Q)%nat -> (2 * Q + P < length x)%nat -> (lag < length x)%nat ->
+  (P <= lag)%nat -> (4 < P -> P < lag)%nat ->
+  exists a b rho, arma_estimate lsm lsq x P Q lag = inr (a, b, rho).
+Proof. intros. apply arma_returns_gen_thm; lia. Qed.
+
+(* ... and only there: the exact set of arguments on which the code (as modelled) returns *)
+Theorem arma_domain_thm (x : list F) P Q lag a b rho :
+  arma_estimate lsm lsq x P Q lag = inr (a, b, rho) ->
+  (lag < length x)%nat /\ (0 < Q)%nat /\ (2 * Q + P < length x)%nat
+  /\ (lag + P <= Q \/ (P <= lag + Q + 1 /\ lag + 2 * P <= length x + Q))%nat
+  /\ (0 < lag)%nat /\ (P <= lag)%nat /\ (4 < P -> P < lag)%nat.
+Proof.
+  intros H. destruct (arma_steps_thm _ _ _ _ _ _ _ H) as (r & Er & Ea & Em).
+  unfold acorr in Er. destruct (correlation_def_thm _ _ _ _ _ _ Er) as (Hlag & _). rewrite Nat.max_id in Hlag.
+  destruct (ma_lengths_thm _ _ _ _ _ Em) as (_ & HQ & HM). unfold arma_resid in HM. rewrite mk_length in HM.
+  unfold arma_estimate in H. fold (acorr x lag Unbiased) in Er. rewrite Er in H.
+  destruct (Nat.ltb_spec (length x) P) as [HNP|HNP]; [discriminate|].
+  assert (Hidx : (lag + P <= Q \/ (P <= lag + Q + 1 /\ lag + 2 * P <= length x + Q))%nat).
+  { destruct (Nat.ltb_spec 0 (lag + P - Q)) as [H0|H0]; [|lia]. cbn [andb] in H.
+    destruct (Nat.ltb_spec (lag + Q + 1) P) as [H1|H1]; [discriminate|].
+    destruct (Nat.ltb_spec (length x - P) (lag + P - Q)) as [H2|H2]; [discriminate|]. lia. }
+  assert (Hls : (0 < lag /\ P <= lag /\ (4 < P -> P < lag))%nat).
+  { unfold arma_ar in Ea. destruct (Nat.leb_spec P 4) as [H4|H4].
+    - destruct (Nat.ltb_spec lag P) as [H5|H5]; [discriminate|]. destruct (Nat.eqb_spec lag 0) as [H6|H6]; [discriminate|]. lia.
+    - destruct (Nat.leb_spec lag P) as [H5|H5]; [|lia]. destruct (Nat.ltb_spec P (length x)) as [H6|H6]; [discriminate|]. lia. }
+  repeat split; try lia; try exact Hidx.
+Qed.
+
+Theorem arma_returns_iff_thm (x : list F) P Q lag :
+  (exists a b rho, arma_estimate lsm lsq x P Q lag = inr (a, b, rho)) <->
+  ((lag < length x)%nat /\ (0 < Q)%nat /\ (2 * Q + P < length x)%nat
+   /\ (lag + P <= Q \/ (P <= lag + Q + 1 /\ lag + 2 * P <= length x + Q))%nat
+   /\ (0 < lag)%nat /\ (P <= lag)%nat /\ (4 < P -> P < lag)%nat).
+Proof.
+  split.
+  - intros (a & b & rho & H). exact (arma_domain_thm _ _ _ _ _ _ _ H).
+  - intros (H1 & H2 & H3 & H4 & H5 & H6 & H7). apply arma_returns_gen_thm; assumption.
 Qed.
 
 (* ---------- the index theorem for P = Q ---------- *)
